@@ -20,7 +20,8 @@
 (*        acceptance here)                                                 *)
 (*   Proj.same:<kind>:<mut>        the concrete instance does not differ   *)
 (*        from its base exactly where the abstract mutation says           *)
-(* A malleated (valid) signature is not judged.                            *)
+(* The high-S twin (r, n-s, v^1) of an honest signature is a change of the *)
+(* signature of an accepted transaction: class "auth", must be rejected.   *)
 (***************************************************************************)
 EXTENDS TxAuth, TLC, Json
 
@@ -59,7 +60,7 @@ JudgeVerify(e) ==
       who == e.kind \o ":" \o e.mut \o (IF e.edflip = "" THEN "" ELSE ":" \o e.edflip)
   IN  Tag(~e.panic, "Inv.Total.panic:" \o e.kind) \o
       Tag(\A n \in AllFields : e.same[n] = (KeyOf(tx, n) = KeyOf(e.base, n)), "Proj.same:" \o who) \o
-      (IF e.panic \/ e.cls = "either" THEN <<>>
+      (IF e.panic THEN <<>>
        ELSE IF e.ok /\ ~acc THEN <<"Inv.Authentic.accepted:" \o who>>
        ELSE IF ~e.ok /\ acc THEN
               (IF e.cls = "unauth" THEN <<"rejected-unauth:" \o who>> ELSE <<"Inv.Complete.rejected:" \o who>>)
